@@ -950,4 +950,121 @@ theorem off_by_one_uid_bound_grows_file (s : FS) (off : Nat) (bs : List Nat) (hp
     | cons _ _ => simp
   omega
 
+/-! #### concurrent single-field updates and the session read-modify-write of a user record -/
+
+/-- regenerated: ptt.pwcuStart refuses unless the user-ids are equal as C strings (case-sensitive); the
+Money field lies inside the record. -/
+theorem pwcu_compares_exact :
+    Gen.RecFile.pwcuStartComparesExact = true ∧
+    Gen.RecFile.pwOffMoney + Gen.RecFile.pwLenMoney ≤ Gen.RecFile.USEREC_RAW_SZ ∧ Gen.RecFile.pwLenMoney = 4 ∧
+    Gen.RecFile.pwOffUserID + Gen.RecFile.pwLenUserID ≤ Gen.RecFile.pwOffMoney := by decide
+
+/-- an in-place field update changes no existing byte outside the addressed field `[o, o+|bs|)`,
+`o = USEREC_RAW_SZ*(uid-1) + off`, and never shrinks the file. -/
+theorem passwd_update_field_frame (s : FS) (uid : Int) (off : Nat) (bs : List Nat) :
+    s.bytes.length ≤ (passwdUpdate s uid off bs).1.bytes.length ∧
+    ∀ p, p < s.bytes.length →
+      ¬ ((pwSz : Int) * (uid - 1) + (off : Int) ≤ (p : Int) ∧ (p : Int) < (pwSz : Int) * (uid - 1) + (off : Int) + (bs.length : Int)) →
+      (passwdUpdate s uid off bs).1.bytes[p]? = s.bytes[p]? := by
+  unfold passwdUpdate passwdUpdateG
+  by_cases hv : uidValid uid = true
+  · simp only [hv, Bool.not_true, Bool.false_eq_true, if_false]
+    by_cases hp : s.present = true
+    · simp only [hp, Bool.not_true, Bool.false_eq_true, if_false]
+      by_cases ho : (pwSz : Int) * (uid - 1) + (off : Int) < 0
+      · rw [if_pos ho]; exact ⟨Nat.le_refl _, fun _ _ _ => rfl⟩
+      · rw [if_neg ho]
+        refine ⟨length_writeAt_ge _ _ _, ?_⟩
+        intro p hpl hout
+        generalize hO : (pwSz : Int) * (uid - 1) + (off : Int) = O at ho hout
+        by_cases h1 : p < O.toNat
+        · exact getElem?_writeAt_before _ _ _ _ h1 hpl
+        · apply getElem?_writeAt_after; omega
+    · have hp' : s.present = false := by simpa using hp
+      simp only [hp', Bool.not_false, if_true]
+      exact ⟨Nat.le_refl _, fun _ _ _ => trivial⟩
+  · have hv' : uidValid uid = false := by simpa using hv
+    simp only [hv', Bool.not_false, if_true]
+    exact ⟨Nat.le_refl _, fun _ _ _ => trivial⟩
+
+/-- in whatever order a batch of money updates (cache.SetUMoney / DeUMoney of any users) is served: a byte
+that lies in none of the addressed 4-byte Money fields keeps its value, and the file does not shrink. -/
+theorem money_batch_frame (us : List (Int × Int)) (s : FS) (p : Nat) (hp : p < s.bytes.length)
+    (hout : ∀ u ∈ us, ¬ ((pwSz : Int) * (u.1 - 1) + (Gen.RecFile.pwOffMoney : Int) ≤ (p : Int) ∧
+      (p : Int) < (pwSz : Int) * (u.1 - 1) + (Gen.RecFile.pwOffMoney : Int) + 4)) :
+    (moneyBatch s us).bytes[p]? = s.bytes[p]? ∧ s.bytes.length ≤ (moneyBatch s us).bytes.length := by
+  induction us generalizing s with
+  | nil => exact ⟨rfl, Nat.le_refl _⟩
+  | cons u us ih =>
+    have hf := passwd_update_field_frame s u.1 Gen.RecFile.pwOffMoney (le32 (u.2 % 4294967296).toNat)
+    have h4 : (le32 (u.2 % 4294967296).toNat).length = 4 := rfl
+    have h1 := hf.2 p hp (by rw [h4]; exact hout u (List.mem_cons_self ..))
+    have h2 := ih (moneyUpdate s u.1 u.2).1 (Nat.lt_of_lt_of_le hp hf.1)
+      (fun v hv => hout v (List.mem_cons_of_mem _ hv))
+    show (moneyBatch (moneyUpdate s u.1 u.2).1 us).bytes[p]? = _ ∧ _ ≤ (moneyBatch (moneyUpdate s u.1 u.2).1 us).bytes.length
+    exact ⟨h2.1.trans h1, Nat.le_trans hf.1 h2.2⟩
+
+/-- the session read-modify-write, for ANY comparison `same`: either nothing is written, or the record at
+`uid` was read in full and `same` accepted the held user-id against the record's. -/
+theorem pwcu_writes_only_if_same (same : List Nat → List Nat → Bool) (s : FS) (uid : Int) (held : List Nat)
+    (m : Int) (f : List Nat → List Nat) :
+    pwcuModifyG same s uid held m f = (s, .unit .invalidIdx) ∨ pwcuModifyG same s uid held m f = (s, .unit .err) ∨
+    ∃ r, passwdQuery s uid 0 Gen.RecFile.packedUserecRaw = .recs .ok [(uid.toNat, r)] ∧
+      same held (field r Gen.RecFile.pwOffUserID Gen.RecFile.pwLenUserID) = true := by
+  unfold pwcuModifyG
+  have hq : ∀ e rs, passwdQuery s uid 0 Gen.RecFile.packedUserecRaw = .recs e rs →
+      (e = .ok → ∃ r, rs = [(uid.toNat, r)]) := by
+    intro e rs h he
+    unfold passwdQuery at h
+    split at h
+    · injection h with h1 _; rw [he] at h1; cases h1
+    · split at h
+      · injection h with h1 _; rw [he] at h1; cases h1
+      · simp only [] at h
+        split at h
+        · injection h with h1 _; rw [he] at h1; cases h1
+        · split at h
+          · injection h with h1 _; rw [he] at h1; cases h1
+          · injection h with _ h2; exact ⟨_, h2.symm⟩
+  cases hres : passwdQuery s uid 0 Gen.RecFile.packedUserecRaw with
+  | recs e rs =>
+    cases e with
+    | ok =>
+      obtain ⟨r, rfl⟩ := hq _ _ hres rfl
+      simp only []
+      by_cases hs : same held (field r Gen.RecFile.pwOffUserID Gen.RecFile.pwLenUserID) = true
+      · right; right; exact ⟨r, rfl, hs⟩
+      · left; rw [if_neg hs]
+    | err => right; left; rfl
+    | invalidIdx => left; rfl
+  | unit e => right; left; rfl
+  | idx e i => right; left; rfl
+  | count n => right; left; rfl
+  | panic => right; left; rfl
+
+/-- with the comparison the source has, a session whose held user-id is not (as a C string) the user-id in
+the slot — the slot was reused by another account, e.g. one that differs only in letter case — is refused
+and .PASSWDS is left exactly as it is. -/
+theorem pwcu_stale_refused (s : FS) (uid : Int) (held : List Nat) (m : Int) (r : List Nat)
+    (hq : passwdQuery s uid 0 Gen.RecFile.packedUserecRaw = .recs .ok [(uid.toNat, r)])
+    (hne : cstr held ≠ cstr (field r Gen.RecFile.pwOffUserID Gen.RecFile.pwLenUserID)) :
+    pwcuModify s uid held m = (s, .unit .invalidIdx) := by
+  have hsame : pwcuSame held (field r Gen.RecFile.pwOffUserID Gen.RecFile.pwLenUserID) = false := by
+    unfold pwcuSame
+    rw [pwcu_compares_exact.1]
+    simp only [if_true]
+    cases hc : cstrcmpEq held (field r Gen.RecFile.pwOffUserID Gen.RecFile.pwLenUserID) with
+    | false => rfl
+    | true => exact absurd ((cstrcmpEq_iff _ _).1 hc) hne
+  unfold pwcuModify pwcuModifyG
+  rw [hq]
+  simp only [hsame, Bool.false_eq_true, if_false]
+
+/-- witness for the broken rule: compared case-insensitively the held id "Chloe" equals the id "chloe" of
+the account that now owns the slot; compared exactly it does not. -/
+theorem case_insensitive_pair_accepts_other_account :
+    cstrcmpEq [67, 104, 108, 111, 101, 0] [99, 104, 108, 111, 101, 0] = false ∧
+    cstrcmpEq ([67, 104, 108, 111, 101, 0].map fun c => if 65 ≤ c ∧ c ≤ 90 then c + 32 else c)
+      ([99, 104, 108, 111, 101, 0].map fun c => if 65 ≤ c ∧ c ≤ 90 then c + 32 else c) = true := by decide
+
 end PttVerif.C05.Props
